@@ -25,6 +25,16 @@
 //!   * retention (part "retention", creations >= 1.1 s apart because stamps have 1 s granularity): with
 //!     max N the listed set after every creation is exactly the last min(i, N) created, and each of them
 //!     can be rolled back to with its recorded observation vector.
+//!   * repeated cycles under retention (part "recycle", same 1.1 s spacing, max N in 1..3): checkpoint
+//!     creations (manual with names drawn WITH repetition from a pool of N or N+1 names, and automatic
+//!     ones, whose names repeat by construction) are interleaved with rollbacks to any retained checkpoint
+//!     (three quarters by name), write batteries and "roll back to every retained checkpoint" sweeps, so
+//!     that a name or id used by an earlier ROLLBACK TO is used again after retention has purged
+//!     checkpoints (incl. the one the name stood for then) and after the store was put back in time. In a
+//!     minority of the programs a retained checkpoint is removed with `CheckpointManager::delete` (set-up
+//!     call, itself not judged) - the third way a checkpoint disappears. Same oracles: listed set = newest
+//!     min(i, N) after every creation, every listed checkpoint restorable - by its name when exactly one
+//!     listed checkpoint carries it - to its own recorded observation vector, list unchanged by a rollback.
 //!
 //! All four statement entry points of the router are driven (`Cfg::async_mode`): execute_parsed,
 //! execute_parsed_async, and parse-then-execute_statement / execute_statement_async, either for CHECKPOINT /
@@ -94,6 +104,9 @@ enum Item {
     /// that the slab SIMD filter does not handle (text, float <= / >=) and by UPDATE / DELETE
     Btree { table: String, col: String },
     Sleep(u64),
+    /// CheckpointManager::delete(<id of cp label>) (set-up call, not judged: the harness continues from
+    /// what CHECKPOINTS lists afterwards)
+    Forget { label: u32 },
 }
 
 impl Item {
@@ -115,6 +128,7 @@ impl Item {
             Item::Hnsw => "-- router.vector().build_and_cache_index(HNSWConfig::default())".into(),
             Item::Btree { table, col } => format!("-- router.relational().create_btree_index(\"{}\", \"{}\")", table, col),
             Item::Sleep(ms) => format!("-- sleep {} ms", ms),
+            Item::Forget { label } => format!("-- router.checkpoint().lock().await.delete(\"<id of cp{}>\")", label),
         }
     }
 }
@@ -475,6 +489,13 @@ struct Runner {
     nontrivial_rollbacks: u64,
     last_rb: Option<u32>,
     constraint_stmt_since_rb: bool,
+    /// every checkpoint CHECKPOINTS ever listed: id -> name
+    ever_listed: BTreeMap<String, String>,
+    /// text given to an earlier successful ROLLBACK TO -> id of the checkpoint it stood for then
+    rb_resolved: HashMap<String, String>,
+    /// checkpoints that retention (strict part) or CheckpointManager::delete has removed so far
+    purged: u64,
+    rb_since_creation: bool,
 }
 
 fn count(c: &mut BTreeMap<String, u64>, k: &str, n: u64) {
@@ -535,6 +556,10 @@ impl Runner {
             nontrivial_rollbacks: 0,
             last_rb: None,
             constraint_stmt_since_rb: false,
+            ever_listed: BTreeMap::new(),
+            rb_resolved: HashMap::new(),
+            purged: 0,
+            rb_since_creation: false,
         })
     }
 
@@ -622,7 +647,13 @@ impl Runner {
 
     fn list(&mut self) -> Result<Vec<Listed>, String> {
         match self.exec("CHECKPOINTS LIMIT 1000") {
-            Ok(QueryResult::CheckpointList(v)) => Ok(v.into_iter().map(|c| Listed { id: c.id, name: c.name, auto: c.is_auto }).collect()),
+            Ok(QueryResult::CheckpointList(v)) => {
+                let l: Vec<Listed> = v.into_iter().map(|c| Listed { id: c.id, name: c.name, auto: c.is_auto }).collect();
+                for x in &l {
+                    self.ever_listed.entry(x.id.clone()).or_insert_with(|| x.name.clone());
+                }
+                Ok(l)
+            }
             Ok(o) => Err(format!("unexpected result {:?}", o)),
             Err(e) => Err(e),
         }
@@ -771,9 +802,20 @@ impl Runner {
     fn check_created(&mut self, text: &str, id: &str, listed: &[Listed]) {
         let id = id.to_string();
         let listed: Vec<Listed> = listed.to_vec();
+        if !id.is_empty() {
+            if self.cfg.strict_retention && self.rb_since_creation {
+                count(&mut self.counters, "retention_creations_after_a_rollback", 1);
+                if self.expected.len() > self.cfg.max_cp {
+                    count(&mut self.counters, "retention_purging_creations_after_a_rollback", 1);
+                }
+            }
+            self.rb_since_creation = false;
+        }
         if self.cfg.strict_retention {
             while self.expected.len() > self.cfg.max_cp {
                 self.expected.remove(0);
+                self.purged += 1;
+                count(&mut self.counters, "retention_purges_expected", 1);
             }
         }
         let want: BTreeSet<&String> = self.expected.iter().map(|l| &l.id).collect();
@@ -910,6 +952,25 @@ impl Runner {
         if pre.iter().any(|l| l.id == id && l.auto) {
             count(&mut self.counters, "rollbacks_to_auto_checkpoint", 1);
         }
+        // repeated cycles: what this ROLLBACK TO text, and this name, meant earlier in the program
+        self.rb_since_creation = true;
+        if self.cfg.strict_retention && self.purged > 0 {
+            count(&mut self.counters, "rollbacks_after_a_purge", 1);
+        }
+        if by_name && self.ever_listed.iter().any(|(i, n)| *i != id && *n == name && !pre.iter().any(|l| l.id == *i)) {
+            count(&mut self.counters, "rollbacks_by_name_once_carried_by_a_purged_checkpoint", 1);
+        }
+        match self.rb_resolved.get(&target) {
+            Some(prev) if *prev != id => {
+                count(&mut self.counters, "rollbacks_by_text_that_earlier_restored_another_checkpoint", 1);
+                if !pre.iter().any(|l| l.id == *prev) {
+                    count(&mut self.counters, "rollbacks_by_text_that_earlier_restored_a_since_purged_checkpoint", 1);
+                }
+            }
+            Some(_) => count(&mut self.counters, "rollbacks_by_text_used_before_for_the_same_checkpoint", 1),
+            None => {}
+        }
+        self.rb_resolved.insert(target.clone(), id.clone());
         if newest_before != Some(label) {
             count(&mut self.counters, "rollbacks_to_non_newest", 1);
         }
@@ -981,11 +1042,36 @@ impl Runner {
                     break;
                 }
             }
+            // ... or what a checkpoint recorded that is not listed any more (purged by retention / deleted)?
+            let mut gone = false;
+            if other.is_none() {
+                for (l2, r2) in self.recs.iter() {
+                    if *l2 == label || pre.iter().any(|p| p.id == r2.id) || r2.obs.len() != now.len() {
+                        continue;
+                    }
+                    let same = self.queries.iter().enumerate().all(|(i, q)| q.class == "legacy-execute-similar" || differ(&r2.obs[i], &now[i], q.limit).is_none());
+                    if same {
+                        other = Some((*l2, r2.name.clone()));
+                        gone = true;
+                        break;
+                    }
+                }
+            }
             if let Some((l2, n2)) = other {
                 let first = seen.values().next().map(|x| x.1.clone()).unwrap_or_default();
                 self.viol(
-                    format!("rollback{}:restored-another-checkpoint-than-the-one-{}", self.entry_tag(), if by_name { "named" } else { "identified" }),
-                    format!("`{}` must restore cp{} (name {:?}, id {}) but every observation query now answers as recorded for cp{} (name {:?}); e.g. {}", text, label, name, id, l2, n2, first),
+                    format!("rollback{}:restored-{}-than-the-one-{}", self.entry_tag(), if gone { "a-checkpoint-no-longer-listed-rather" } else { "another-checkpoint" }, if by_name { "named" } else { "identified" }),
+                    format!(
+                        "`{}` must restore cp{} (name {:?}, id {}) but every observation query now answers as recorded for cp{} (name {:?}{}); e.g. {}",
+                        text,
+                        label,
+                        name,
+                        id,
+                        l2,
+                        n2,
+                        if gone { ", which CHECKPOINTS did not list any more immediately before" } else { "" },
+                        first
+                    ),
                 );
                 // the per-class differences are consequences of having the wrong image
                 count(&mut self.counters, "differences_explained_by_wrong_image", seen.len() as u64);
@@ -1037,6 +1123,29 @@ impl Runner {
                 }
                 self.resync(&post);
             }
+        }
+    }
+
+    /// remove a checkpoint through the manager's own API (the router has no statement for it). Not judged:
+    /// the harness continues from what CHECKPOINTS lists afterwards.
+    fn do_forget(&mut self, label: u32) {
+        let Some(id) = self.recs.get(&label).map(|r| r.id.clone()) else { return };
+        let Some(mgr) = self.router.checkpoint().cloned() else { return };
+        let pre = self.list().unwrap_or_default();
+        self.absorb_auto(&pre);
+        if !pre.iter().any(|l| l.id == id) {
+            return;
+        }
+        let r: Result<(), String> = self.rt.block_on(async { mgr.lock().await.delete(&id).await }).map_err(|e| e.to_string());
+        if self.trace {
+            eprintln!("        => {:?}", r);
+        }
+        if let Ok(post) = self.list() {
+            if r.is_ok() && !post.iter().any(|l| l.id == id) {
+                count(&mut self.counters, "checkpoints_deleted_through_manager", 1);
+                self.purged += 1;
+            }
+            self.resync(&post);
         }
     }
 
@@ -1449,6 +1558,7 @@ impl Runner {
                     }
                 }
                 Item::Sleep(ms) => std::thread::sleep(Duration::from_millis(*ms)),
+                Item::Forget { label } => self.do_forget(*label),
             }
             src.fed(&item, None);
         }
@@ -1479,6 +1589,10 @@ enum Seg {
     Sleep(u64),
     /// retention part: roll back to every listed checkpoint, newest first
     RbAllNewestFirst,
+    /// recycle part: CHECKPOINT '<name>' with the name drawn, with repetition, from `Gen::recycle_names`
+    CpRecycled,
+    /// recycle part: CheckpointManager::delete of a listed checkpoint
+    Forget,
 }
 
 struct Gen {
@@ -1494,6 +1608,10 @@ struct Gen {
     last_rb: Option<u32>,
     /// unused near-duplicate names
     name_pool: Vec<String>,
+    /// recycle part: the names manual checkpoints take turns with (empty in the other parts)
+    recycle_names: Vec<String>,
+    /// recycle part: label -> name given
+    recycle_given: HashMap<u32, String>,
 }
 
 impl Gen {
@@ -1506,10 +1624,10 @@ impl Gen {
             rng.shuffle(&mut name_pool);
             name_pool.truncate(4);
         }
-        Gen { rng, cfg: cfg.clone(), world: World::default(), snaps: HashMap::new(), segs, seg_pos: 0, left_in_phase: 0, next_label: 1, pending_rb: vec![], last_rb: None, name_pool }
+        Gen { rng, cfg: cfg.clone(), world: World::default(), snaps: HashMap::new(), segs, seg_pos: 0, left_in_phase: 0, next_label: 1, pending_rb: vec![], last_rb: None, name_pool, recycle_names: Vec::new(), recycle_given: HashMap::new() }
     }
     fn by_id(&mut self) -> bool {
-        if self.cfg.near_names {
+        if self.cfg.near_names || !self.recycle_names.is_empty() {
             self.rng.chance(1, 4)
         } else {
             self.rng.bool()
@@ -1789,6 +1907,35 @@ impl Source for Gen {
                     // popped from the back; listed_labels is oldest first
                     self.pending_rb = view.listed_labels.clone();
                 }
+                Seg::CpRecycled => {
+                    if view.cps_total + 1 >= CP_TOTAL_CAP {
+                        continue;
+                    }
+                    let label = self.next_label;
+                    self.next_label += 1;
+                    // mostly a name that was used before and whose bearer retention has purged (or purges with
+                    // this very creation), so that the name stands for one listed checkpoint again; sometimes
+                    // a name that a checkpoint which stays listed carries too; now and then a fresh one
+                    let l = &view.listed_labels;
+                    let staying: Vec<&String> = l[l.len().saturating_sub(self.cfg.max_cp.saturating_sub(1))..].iter().filter_map(|x| self.recycle_given.get(x)).collect();
+                    let free: Vec<String> = self.recycle_names.iter().filter(|n| !staying.contains(n)).cloned().collect();
+                    let name = if self.recycle_names.is_empty() || self.rng.chance(1, 8) {
+                        format!("once{}", label)
+                    } else if !free.is_empty() && self.rng.chance(4, 5) {
+                        free[self.rng.below(free.len())].clone()
+                    } else {
+                        self.recycle_names[self.rng.below(self.recycle_names.len())].clone()
+                    };
+                    self.recycle_given.insert(label, name.clone());
+                    return Some(Item::Cp { label, named: true, name: Some(name) });
+                }
+                Seg::Forget => {
+                    if view.listed_labels.is_empty() {
+                        continue;
+                    }
+                    let l = view.listed_labels[self.rng.below(view.listed_labels.len())];
+                    return Some(Item::Forget { label: l });
+                }
                 Seg::Battery => return Some(Item::Battery),
                 Seg::Hnsw => return Some(Item::Hnsw),
                 Seg::Sleep(ms) => return Some(Item::Sleep(ms)),
@@ -1938,6 +2085,60 @@ fn retention_plan(rng: &mut Rng, cfg: &Cfg) -> Vec<Seg> {
     segs.push(Seg::RbAllNewestFirst);
     segs.push(Seg::Battery);
     segs
+}
+
+/// repeated checkpoint / rollback cycles while retention is at work: creations >= 1.1 s apart, names that
+/// come back, rollbacks (single ones and sweeps over everything retained) between the creations
+fn recycle_plan(rng: &mut Rng, cfg: &Cfg, deep: bool) -> Vec<Seg> {
+    let mut segs = vec![Seg::Phase(3 + rng.below(5))];
+    // enough creations that retention purges at least one checkpoint, mostly several
+    let n = (cfg.max_cp + 1 + rng.below(if deep { 5 } else { 3 })).min(CP_TOTAL_CAP - 2);
+    for k in 0..n {
+        let kind = if cfg.auto_cp && rng.chance(1, 3) { Seg::AutoCp } else { Seg::CpRecycled };
+        if kind == Seg::AutoCp {
+            // something to destroy: the statement is chosen among existing things
+            segs.push(Seg::Phase(2));
+        }
+        segs.push(kind);
+        segs.push(Seg::Sleep(1100));
+        segs.push(Seg::Phase(1 + rng.below(4)));
+        if k + 1 == n {
+            break;
+        }
+        match rng.below(8) {
+            0 => {}
+            1..=3 => {
+                segs.push(Seg::Rb);
+                if rng.chance(1, 3) {
+                    segs.push(Seg::Battery);
+                }
+                segs.push(Seg::Phase(rng.below(4)));
+                if rng.chance(1, 4) {
+                    segs.push(Seg::Rb);
+                }
+            }
+            4..=6 => {
+                segs.push(Seg::RbAllNewestFirst);
+                segs.push(Seg::Phase(rng.below(4)));
+            }
+            _ => {
+                segs.push(Seg::Rb);
+                segs.push(Seg::Forget);
+                segs.push(Seg::Phase(rng.below(3)));
+            }
+        }
+    }
+    segs.push(Seg::RbAllNewestFirst);
+    segs.push(Seg::Battery);
+    segs
+}
+
+/// as many names as checkpoints are retained, or one more
+fn recycle_names(rng: &mut Rng, cfg: &Cfg) -> Vec<String> {
+    let mut v: Vec<String> = ["nightly", "before-import", "stable", "Nightly", "weekly"].iter().map(|s| s.to_string()).collect();
+    rng.shuffle(&mut v);
+    v.truncate(cfg.max_cp + rng.below(2));
+    v
 }
 
 fn cycle_cfg(rng: &mut Rng) -> Cfg {
@@ -2182,6 +2383,40 @@ fn retention_case(case_seed: u64, report: &mut Report, trace: bool) {
     report_outcome("retention", case_seed, &cfg, o, report, false);
 }
 
+fn recycle_case(case_seed: u64, report: &mut Report, trace: bool, deep: bool) {
+    let mut rng = Rng::new(case_seed ^ 0x5EC7C1E);
+    let mut cfg = retention_cfg(&mut rng);
+    cfg.near_names = false;
+    // (a small list is turned over more often per creation, and creations cost 1.1 s each)
+    cfg.max_cp = [1, 1, 1, 2, 2, 3][rng.below(6)];
+    let segs = recycle_plan(&mut rng, &cfg, deep);
+    let mut g = Gen::new(rng.fork(3), &cfg, segs);
+    g.recycle_names = recycle_names(&mut rng, &cfg);
+    let o = run_script(&cfg, &mut g, trace, Duration::from_secs(240));
+    for (k, to) in [("checkpoints_created", "recycle_creations"), ("rollbacks_done", "recycle_rollbacks"), ("retention_list_checks_passed", "recycle_list_checks_passed"), ("rollbacks_after_a_purge", "recycle_rollbacks_after_a_purge")] {
+        if let Some(n) = o.counters.get(k) {
+            report.count(to, *n);
+        }
+    }
+    if o.counters.get("rollbacks_by_text_that_earlier_restored_a_since_purged_checkpoint").copied().unwrap_or(0) > 0 {
+        report.count("recycle_cases_reusing_a_rollback_text_after_its_checkpoint_was_purged", 1);
+        report.count(&format!("recycle_cases_reusing_a_rollback_text_after_its_checkpoint_was_purged[max_checkpoints={}]", cfg.max_cp), 1);
+    }
+    report.count(&format!("cases[recycle][max_checkpoints={}]", cfg.max_cp), 1);
+    report_outcome("recycle", case_seed, &cfg, o, report, false);
+}
+
+/// non-vacuity of the recycle part (`mult` = 3 when the part runs alone with three times the cases)
+fn recycle_floors(args: &Args, mult: u64) -> Vec<(&'static str, u64)> {
+    vec![
+        ("cases[recycle]", mult * args.by_tier(10, 90)),
+        ("recycle_creations", mult * args.by_tier(25, 250)),
+        ("retention_purging_creations_after_a_rollback", mult * args.by_tier(8, 80)),
+        ("recycle_rollbacks_after_a_purge", mult * args.by_tier(15, 150)),
+        ("recycle_cases_reusing_a_rollback_text_after_its_checkpoint_was_purged", mult * args.by_tier(2, 25)),
+    ]
+}
+
 fn main() {
     let args = Args::parse();
     let started = Instant::now();
@@ -2207,6 +2442,8 @@ fn main() {
                 eprintln!("replaying whole case part={} case_seed={}", part, seed);
                 if part == "retention" {
                     retention_case(seed, &mut total, true)
+                } else if part == "recycle" {
+                    recycle_case(seed, &mut total, true, !args.quick())
                 } else {
                     cycle_case(seed, &mut total, true)
                 }
@@ -2217,14 +2454,31 @@ fn main() {
         let n_ret = args.by_tier(13u64, 100u64);
         let stride = n_cycle / n_ret;
         let n_total = n_cycle + n_ret;
-        let rep = par_cases(args.threads, args.seed, n_total, args.budget(75, 900), |i, s, r| {
-            // retention cases (which mostly sleep) are spread evenly among the others
-            if i % (stride + 1) == stride / 2 {
-                retention_case(s, r, false)
-            } else {
-                cycle_case(s, r, false)
-            }
-        });
+        let deep = !args.quick();
+        let only = args.extra.get("part").cloned();
+        let rep = if only.as_deref() == Some("recycle") {
+            // (development aid: `--part recycle` runs the recycle part alone)
+            par_cases(args.threads, args.seed, args.by_tier(48u64, 400u64), args.budget(75, 900), |_, s, r| recycle_case(s, r, false, deep))
+        } else {
+            // recycle cases (which mostly sleep, too) are spread evenly among the cases of the two older
+            // parts, which keep the case seeds they had before this part existed
+            let n_rec = args.by_tier(16u64, 130u64);
+            let gap = (n_total + n_rec) / n_rec;
+            par_cases(args.threads, args.seed, n_total + n_rec, args.budget(80, 960), |i, s, r| {
+                let (q, at) = (i / gap, i % gap);
+                if q < n_rec && at == gap / 3 {
+                    return recycle_case(s, r, false, deep);
+                }
+                let j = i - q.min(n_rec) - u64::from(q < n_rec && at > gap / 3);
+                let s = case_seed(args.seed, j);
+                // retention cases (which mostly sleep) are spread evenly among the others
+                if j % (stride + 1) == stride / 2 {
+                    retention_case(s, r, false)
+                } else {
+                    cycle_case(s, r, false)
+                }
+            })
+        };
         total.merge(rep);
     }
     if let Ok(g) = WITNESS.lock() {
@@ -2236,7 +2490,7 @@ fn main() {
 
     let meta = Meta {
         property: "C08",
-        rule: "one evaluation = one program run on a fresh QueryRouter (blob + checkpoint manager initialised): <=40 random relational/graph/vector statements per phase, 1-4 manual checkpoints (named or unnamed; plus automatic ones before destructive statements in a quarter of the cases), 1-6 rollbacks to any still-listed checkpoint by id or by name (newest, older, or the same one again), must-work write batteries, further phases and cycles. At every CHECKPOINT the observation vector (about 370 read statements through execute_parsed: SHOW TABLES, DESCRIBE, per-table scan / int equality / text equality / int, text and float range / COUNT(*) selects over 4 tables with and without hash index, NODE GET + NEIGHBORS x3 + EDGE GET for ids 1..48, NODE/EDGE LIST, FIND NODE/EDGE, CONSTRAINT LIST, GRAPH INDEX SHOW, EMBED GET per key, SIMILAR by vector in 3 metrics and by key, COUNT/SHOW EMBEDDINGS; plus 4 SIMILAR statements through the legacy execute path) is recorded and must be answered identically right after ROLLBACK TO that checkpoint; after a rollback INSERT/UPDATE (equality, range and text conditions)/DELETE/CREATE TABLE/CREATE INDEX/NODE CREATE/EDGE CREATE/EMBED STORE must succeed, be visible and leave all other rows/nodes/edges untouched; CHECKPOINTS must list the same set before and after a rollback, every created checkpoint is listed and every listed one can be restored. Retention part: max N in 1..3, N+1..N+2 checkpoints created >= 1.1 s apart - manual CHECKPOINT statements and, in three fifths of the cases, automatic checkpoints taken by the router before a destructive statement (NODE DELETE / EMBED DELETE with auto_checkpoint on), at least one of them when the list is already full - the listed set must be exactly the newest min(i,N) after every creating step of either kind, then every retained checkpoint (automatic ones against the observation vector recorded right before their statement) is rolled back to (newest first) and compared. In half of all cases checkpoint names come from a pool of near-duplicates (same letters in another ASCII case, leading/trailing blanks, the first 8 characters of another checkpoint's id) and three quarters of the rollbacks there go by name; a name that is listed exactly once must restore exactly that checkpoint. Distinct by the hash of the executed item texts; non-trivial if at least one rollback was compared whose checkpoint was followed by a successful write.",
+        rule: "one evaluation = one program run on a fresh QueryRouter (blob + checkpoint manager initialised): <=40 random relational/graph/vector statements per phase, 1-4 manual checkpoints (named or unnamed; plus automatic ones before destructive statements in a quarter of the cases), 1-6 rollbacks to any still-listed checkpoint by id or by name (newest, older, or the same one again), must-work write batteries, further phases and cycles. At every CHECKPOINT the observation vector (about 370 read statements through execute_parsed: SHOW TABLES, DESCRIBE, per-table scan / int equality / text equality / int, text and float range / COUNT(*) selects over 4 tables with and without hash index, NODE GET + NEIGHBORS x3 + EDGE GET for ids 1..48, NODE/EDGE LIST, FIND NODE/EDGE, CONSTRAINT LIST, GRAPH INDEX SHOW, EMBED GET per key, SIMILAR by vector in 3 metrics and by key, COUNT/SHOW EMBEDDINGS; plus 4 SIMILAR statements through the legacy execute path) is recorded and must be answered identically right after ROLLBACK TO that checkpoint; after a rollback INSERT/UPDATE (equality, range and text conditions)/DELETE/CREATE TABLE/CREATE INDEX/NODE CREATE/EDGE CREATE/EMBED STORE must succeed, be visible and leave all other rows/nodes/edges untouched; CHECKPOINTS must list the same set before and after a rollback, every created checkpoint is listed and every listed one can be restored. Retention part: max N in 1..3, N+1..N+2 checkpoints created >= 1.1 s apart - manual CHECKPOINT statements and, in three fifths of the cases, automatic checkpoints taken by the router before a destructive statement (NODE DELETE / EMBED DELETE with auto_checkpoint on), at least one of them when the list is already full - the listed set must be exactly the newest min(i,N) after every creating step of either kind, then every retained checkpoint (automatic ones against the observation vector recorded right before their statement) is rolled back to (newest first) and compared. In half of all cases checkpoint names come from a pool of near-duplicates (same letters in another ASCII case, leading/trailing blanks, the first 8 characters of another checkpoint's id) and three quarters of the rollbacks there go by name; a name that is listed exactly once must restore exactly that checkpoint. Recycle part (repeated checkpoint/rollback cycles under retention): max N in 1..3, N+1..N+3 (thorough: ..N+5) creations >= 1.1 s apart - manual ones whose names are drawn with repetition from a pool of N or N+1 names (mostly a name whose earlier bearer retention has purged), automatic ones whose names repeat by construction - and between the creations rollbacks to any retained checkpoint (three quarters by name when the name is listed exactly once), sweeps over every retained checkpoint, write batteries, and in an eighth of the gaps CheckpointManager::delete of a retained checkpoint; the same oracles apply after every step (listed set = newest min(i,N) after each creation; every listed checkpoint restorable to its own recorded observation vector also when the same ROLLBACK TO text restored another, since purged, checkpoint earlier in the program; list unchanged by a rollback); a database that answers exactly as recorded for a checkpoint that is no longer listed has its own signature. Distinct by the hash of the executed item texts; non-trivial if at least one rollback was compared whose checkpoint was followed by a successful write.",
         assumptions: vec![
             "set-valued answers (rows, node/edge lists, neighbour ids, key lists) are compared as sets; SIMILAR answers on bit-exact scores and on keys except inside a score tie cut by LIMIT".into(),
             "checkpoint creation stamps have 1 s granularity: the retention oracle only judges creations >= 1.1 s apart; in all other programs max_checkpoints = 100 so retention never acts".into(),
@@ -2244,6 +2498,7 @@ fn main() {
             "a quarter of the cycle cases run with RelationalConfig max_tables 3..6 and max_indexes_per_table 2..3; there the battery creates as many new tables as the limit leaves room for given what SHOW TABLES lists (each must succeed) and drops them again; statements of the random phases refused by a limit are not judged; max_btree_entries is left at its default because the harness keeps no model of distinct index keys".into(),
             "ROLLBACK TO by name is only issued when exactly one listed checkpoint carries exactly that name and no listed id equals it; otherwise the id is used".into(),
             "ROLLBACK TO is not a retention event: the set listed by CHECKPOINTS may not change across it".into(),
+            "recycle part: a name carried by several checkpoints over time stands, at any moment, for the one listed checkpoint that carries it (by-name rollbacks are only issued then); what a name shared by two listed checkpoints resolves to is not judged. CheckpointManager::delete is a set-up call: its own effect is not judged, the harness continues from what CHECKPOINTS lists afterwards, and retention is then judged on that list".into(),
             "legacy-path SIMILAR answers recorded while a VectorEngine HNSW cache built by the harness was live are approximate and are not compared; a correct rollback is expected to invalidate that cache like every write path of VectorEngine does".into(),
             "an index built with QueryRouter::build_vector_index() is never built: it is a manual snapshot no write refreshes and its scores differ from the exact search in the last bit".into(),
             "with the router's query cache on, only relational statements are issued (graph/vector writes never invalidate that cache, which is outside this property)".into(),
@@ -2254,8 +2509,11 @@ fn main() {
         ],
         floors: if args.replay.is_some() {
             vec![]
+        } else if args.extra.get("part").map(|p| p.as_str()) == Some("recycle") {
+            recycle_floors(&args, 3)
         } else {
-            vec![
+            let mut f = recycle_floors(&args, 1);
+            f.extend(vec![
                 ("distinct_nontrivial", args.by_tier(40, 800)),
                 ("rollbacks_done", args.by_tier(80, 1600)),
                 ("observation_answers_compared", args.by_tier(20_000, 400_000)),
@@ -2272,7 +2530,8 @@ fn main() {
                 ("battery_runs_under_a_table_limit", args.by_tier(30, 600)),
                 ("battery_tables_created_under_a_table_limit", args.by_tier(40, 800)),
                 ("write_statements_ok", args.by_tier(1_000, 20_000)),
-            ]
+            ]);
+            f
         },
         exhaustive: false,
     };
